@@ -229,7 +229,9 @@ func relabel(s string) string {
 }
 
 func altString(a emitAlt) string {
-	return "[" + strings.Join(a.conds, " && ") + "] " + eventsString(a.events) + " " + a.exit
+	cs := append([]string{}, a.conds...)
+	sort.Strings(cs)
+	return "[" + strings.Join(cs, " && ") + "] " + eventsString(a.events) + " " + a.exit
 }
 
 func eventsString(evs []emitEvent) string {
@@ -334,5 +336,8 @@ func simplifyConds(cs []string) []string {
 }
 
 func pathString(p emitPath) string {
-	return relabel("[" + strings.Join(p.conds, " && ") + "] " + eventsString(p.events))
+	// the conditions of a path are a conjunction: their order carries nothing
+	cs := append([]string{}, p.conds...)
+	sort.Strings(cs)
+	return relabel("[" + strings.Join(cs, " && ") + "] " + eventsString(p.events))
 }
